@@ -144,3 +144,23 @@ Definition tr_add_opt (a b : option str) : result str :=
 (** truth value of an optional str / list held in a state attribute: None and the empty value are falsy *)
 Definition tr_opt_nonempty {A} (o : option (list A)) : bool :=
   match o with Some (_ :: _) => true | _ => false end.
+
+(** [a == b] for an Optional[str] [a] and a str [b]: None equals no str *)
+Definition tr_opt_str_eqb (a : option str) (b : str) : bool :=
+  match a with Some x => str_eqb x b | None => false end.
+
+(** [[f(x) for x in l]] in METHOD MODE where [f] runs on and changes the object's state: the elements are produced
+    left to right, each on the state its predecessor left; the first exception ends it, with the state reached *)
+Fixpoint tr_mapS {A B S} (f : S -> A -> mres B S) (l : list A) (s : S) : mres (list B) S :=
+  match l with
+  | [] => MOk [] s
+  | a :: l =>
+      match f s a with
+      | MErr e s' => MErr e s'
+      | MOk b s' =>
+          match tr_mapS f l s' with
+          | MErr e s'' => MErr e s''
+          | MOk bs s'' => MOk (b :: bs) s''
+          end
+      end
+  end.
